@@ -557,7 +557,13 @@ func cacheStream(cfg *Config) *hx.Stats {
 		T := []uint32{256, 1024}[p%2]
 		atree.VerifSetThreshold(T)
 		script := genScript(cfg.Seed*7777+int64(p), 250, T)
-		ref := runScript(script, runCfg{T: T, workers: 2}) // "never until the end"
+		// every second pair of programs hashes keys NON-injectively (genuine collisions on every
+		// level: the pooled digesters are used beyond level 0), writing the message into the scratch
+		// buffer the library supplies; the other programs alternate between the allocating and the
+		// scratch-writing injective provider
+		hip := []atree.HashInputProvider{nil, hx.HashInputScratch, hx.HashInputBucketScratch, hx.HashInputBucket}[p%4]
+		st.Hit([]string{"hash-input:injective", "hash-input:injective-scratch", "hash-input:bucket-scratch", "hash-input:bucket"}[p%4])
+		ref := runScript(script, runCfg{T: T, workers: 2, hip: hip}) // "never until the end"
 		if ref.err != "" {
 			viol(p, "reference run failed: "+ref.err)
 			continue
@@ -651,7 +657,7 @@ func cacheStream(cfg *Config) *hx.Stats {
 			},
 		}
 		for _, name := range hx.SortedKeys(scheds) {
-			o := runScript(script, runCfg{T: T, workers: 2, maint: scheds[name], keepHandles: strings.HasSuffix(name, "+handles-kept")})
+			o := runScript(script, runCfg{T: T, workers: 2, hip: hip, maint: scheds[name], keepHandles: strings.HasSuffix(name, "+handles-kept")})
 			st.Hit("schedule:" + name)
 			if o.err != "" {
 				viol(p, name+": "+o.err)
@@ -682,6 +688,24 @@ func cacheStream(cfg *Config) *hx.Stats {
 // ---------------------------------------------------------------------------------------------
 // C16: independent client goroutines, each with its own storage; parallel commit and preload
 
+// clientHip: clients 2,3,6,7 hash keys non-injectively (collisions on every level, so that the
+// process-wide digester pool is used beyond level 0 while other goroutines use it too); when run
+// together with the others every client writes its message into the scratch buffer supplied by the
+// library (the message then lives inside the pooled digester), when run alone it allocates: the
+// results must be the same.
+func clientHip(c int, together bool) atree.HashInputProvider {
+	bucket := c%4 >= 2
+	switch {
+	case bucket && together:
+		return hx.HashInputBucketScratch
+	case bucket:
+		return hx.HashInputBucket
+	case together:
+		return hx.HashInputScratch
+	}
+	return nil
+}
+
 func parallelStream(cfg *Config) *hx.Stats {
 	st := hx.NewStats("parallel", cfg.Seed)
 	viol := func(p int, what string) {
@@ -699,7 +723,7 @@ func parallelStream(cfg *Config) *hx.Stats {
 		alone := make([]runOut, nClients)
 		for c := range scripts {
 			scripts[c] = genScript(cfg.Seed*100+int64(p*nClients+c), 200, T)
-			alone[c] = runScript(scripts[c], runCfg{T: T, workers: 1})
+			alone[c] = runScript(scripts[c], runCfg{T: T, workers: 1, hip: clientHip(c, false)})
 		}
 		together := make([]runOut, nClients)
 		var wg sync.WaitGroup
@@ -707,7 +731,7 @@ func parallelStream(cfg *Config) *hx.Stats {
 			wg.Add(1)
 			go func(c int) {
 				defer wg.Done()
-				together[c] = runScript(scripts[c], runCfg{T: T, workers: 1 + c*9, jitter: true, nondet: c%2 == 1})
+				together[c] = runScript(scripts[c], runCfg{T: T, workers: 1 + c*9, jitter: true, nondet: c%2 == 1, hip: clientHip(c, true)})
 			}(c)
 		}
 		wg.Wait()
